@@ -1279,6 +1279,15 @@ class TypeQualifier(TypeQualifierBase, metaclass=_TypeQualifier):
     # casts
     #
 
+    def _check_cast_setter(self, value, name):
+        # In synthesizable contexts the setters of the cast properties are only
+        # reached by augmented assignments (obj.unsigned <<= value) that store the
+        # already assigned view back. The default implementation only changes
+        # the compile time value, a plain assignment would be dropped silently.
+        assert (
+            isinstance(value, TypeQualifier) and value._root is self._root
+        ), f"assignment to the '{name}' property is not possible in synthesizable contexts, use one of the assignment operators instead (example: obj.{name} <<= value)"
+
     @property
     def unsigned(self):
         if issubclass(self._Wrapped, Unsigned):
@@ -1295,6 +1304,10 @@ class TypeQualifier(TypeQualifierBase, metaclass=_TypeQualifier):
 
     _intrinsic(unsigned.fget)
     _intrinsic(unsigned.fset)
+
+    @_intrinsic_replacement(unsigned.fset, special_case=False)
+    def _unsigned_setter_replacement(self, value):
+        self._check_cast_setter(value, "unsigned")
 
     @property
     def signed(self):
@@ -1313,6 +1326,10 @@ class TypeQualifier(TypeQualifierBase, metaclass=_TypeQualifier):
     _intrinsic(signed.fget)
     _intrinsic(signed.fset)
 
+    @_intrinsic_replacement(signed.fset, special_case=False)
+    def _signed_setter_replacement(self, value):
+        self._check_cast_setter(value, "signed")
+
     @property
     def bitvector(self):
         if not issubclass(self._Wrapped, (Signed, Unsigned)):
@@ -1329,6 +1346,10 @@ class TypeQualifier(TypeQualifierBase, metaclass=_TypeQualifier):
 
     _intrinsic(bitvector.fget)
     _intrinsic(bitvector.fset)
+
+    @_intrinsic_replacement(bitvector.fset, special_case=False)
+    def _bitvector_setter_replacement(self, value):
+        self._check_cast_setter(value, "bitvector")
 
 
 class Signal(TypeQualifier):
